@@ -17,7 +17,55 @@ class NotInDomain(Exception):
     pass
 
 
+SUBCLASS = False      # when True, leaf values are built as instances of *subclasses* of the value types
+
+
+class _Sub(object):
+    cache = {}
+
+    @classmethod
+    def of(cls, base):
+        if base not in cls.cache:
+            cls.cache[base] = type('My' + base.__name__, (base,), {})
+        return cls.cache[base]
+
+
+def _sub(v):
+    """An instance of a trivial subclass with the same content (a value type's subclass is still that kind of value)."""
+    t = type(v)
+    try:
+        if t in (bool, type(None)) or v is hszinc.MARKER or v is hszinc.NA or v is hszinc.REMOVE:
+            return v
+        S = _Sub.of(t)
+        if t is datetime.datetime:
+            return S(v.year, v.month, v.day, v.hour, v.minute, v.second, v.microsecond, tzinfo=v.tzinfo, fold=v.fold)
+        if t is datetime.date:
+            return S(v.year, v.month, v.day)
+        if t is datetime.time:
+            return S(v.hour, v.minute, v.second, v.microsecond)
+        if t in (int, float, str) or issubclass(t, str):
+            return S(v)
+        if isinstance(v, hszinc.Ref):
+            return S(v.name, v.value, v.has_value)
+        if isinstance(v, hszinc.Coordinate):
+            return S(v.latitude, v.longitude)
+        if isinstance(v, Qty):
+            return S(v.value, v.unit)
+        if isinstance(v, hszinc.XStr):
+            return S(v.encoding, v.data_to_string())
+    except Exception:
+        return v
+    return v
+
+
 def to_hs(n):
+    v = _to_hs(n)
+    if SUBCLASS and n[0] not in ('list', 'dict', 'grid'):
+        return _sub(v)
+    return v
+
+
+def _to_hs(n):
     k = n[0]
     if k == 'null':
         return None
